@@ -7,8 +7,8 @@ from checks.common import swarm, thread_label
 
 ID = 'C11'
 LEVEL = 'fault_enumeration'
-NEEDS = ('threads', 'aio')
-PROC_READY = False
+NEEDS = ('threads', 'aio', 'proc')
+PROC_READY = True
 QUICK = dict(runs=5000, wall=85)
 THOROUGH = dict(runs=300000, wall=1500)
 RULE = ('fault = which worker (leaf index, worker index) raises in __init__, drawn uniformly over all workers of the tree plus "none" '
@@ -20,6 +20,26 @@ RULE = ('fault = which worker (leaf index, worker index) raises in __init__, dra
 NONTRIVIAL_RULE = 'an init failure was injected or a non-empty workload preceded __exit__; distinct = distinct event-log digests'
 REAL = ['mpservice.mpserver.Server/AsyncServer.__enter__/__exit__', 'all Servlet.start/stop', 'Worker.run/start init handshake and sentinel relay']
 STUB = ['thread scheduler', 'clock', 'asyncio selector']
+
+
+def hang_signature(kind, report, default):
+    """Names one specific family of exit hangs (see KNOWN_FINDINGS.jsonl, C11-exit-hang-pipe-full): the driver is inside
+    Server.__exit__/__aexit__ (servlet.stop() -> join) while a worker or relay thread is blocked WRITING to a full pipe-backed
+    queue whose reader has already stopped reading. Every other hang keeps its generic signature."""
+    root_in_exit = False
+    writers = set()
+    for idx, name, state, why, stack in report:
+        fns = [f[2] for f in stack]
+        if idx == 0 and ('__exit__' in fns or '__aexit__' in fns) and 'stop' in fns:
+            root_in_exit = True
+        if why in ('write', 'sem') and 'put' in fns:
+            for fn, ln, fname in stack:
+                if '/mpservice/mpserver/' in fn:
+                    writers.add(fname)
+                    break
+    if root_in_exit and writers and any(why == 'write' for _i, _n, _s, why, _st in report):
+        return 'exit-hang:pipe-full-nobody-reading:' + '|'.join(sorted(writers))
+    return None
 
 
 def gen(rng, tier):
@@ -46,6 +66,9 @@ def gen(rng, tier):
         elif hist == 'abandon':
             n = rng.choice([5, 20, 50, 120, 300])
             xs = [next(nxt) for _ in range(n)]
+            pad = rng.choice([0, 0, 200, 1000])
+            if pad:
+                xs = [[x, 'p' * pad] for x in xs]  # bulky requests: the abandoned backlog can exceed the pipe capacity
             callers.append({'ops': [{'op': 'stream', 'xs': xs, 'timeout': 100.0, 'return_exceptions': True, 'src_delay': 0,
                                      'stop_after': rng.choice([1, 2, max(1, n // 2)])}]})
         cycles.append({'hist': hist, 'callers': callers})
@@ -56,7 +79,7 @@ def gen(rng, tier):
     sc = {'tree': tree, 'capacity': rng.choice([1, 4, 16, 64, 300]), 'async': rng.random() < 0.3, 'cycles': cycles,
           'fail_site': list(fail_site) if fail_site else None, 'fail_cycle': rng.randrange(len(cycles)) if fail_site else None,
           'post': [next(nxt)]}
-    cfg = swarm(rng, racy=0.15, line=0.2, max_time=600.0, max_steps=1_500_000)
+    cfg = swarm(rng, racy=0.15, line=0.2, max_time=600.0, max_steps=1_500_000, pipe_cap=rng.choice([4096, 4096, 65536]))
     return {'scenario': sc, 'sim': cfg}
 
 
